@@ -217,15 +217,18 @@ func hash64(parts ...[]byte) uint64 {
 }
 
 // digest: 64 bits of SHA-256 over the exported snapshot bytes of every hash
-// slot of the world and the durable applied index of the slot.
-func (w *world) digest() uint64 {
-	var idx [8]byte
-	binary.BigEndian.PutUint64(idx[:], w.appliedIndex())
-	return hash64(w.snapshotBytes(), idx[:])
-}
+// slot of the world (owned or not).  The durable applied index of the slot is
+// observed separately.
+func (w *world) digest() uint64 { return hash64(w.snapshotBytes()) }
 
-// dataDigest is digest without the applied index.
-func (w *world) dataDigest() uint64 { return hash64(w.snapshotBytes()) }
+// ownedDigest covers the owned hash slots only (what Snapshot() exports).
+func (w *world) ownedDigest() uint64 {
+	snap, err := w.db.ExportHashSlotSnapshot(context.Background(), w.owned)
+	if err != nil {
+		panic(fmt.Sprintf("ExportHashSlotSnapshot: %v", err))
+	}
+	return hash64(snap.Data)
+}
 
 // ---- table read-back ------------------------------------------------------------
 
